@@ -284,12 +284,15 @@ impl BackupManager {
     /// Execute the backup by copying files.
     /// This can be called in a background thread.
     pub fn execute_backup(&self, handle: &BackupHandle) -> Result<()> {
+vpoint!("backup.before_ndb");
         // Copy .ndb file
         self.copy_ndb_file(handle)?;
 
+vpoint!("backup.between_copies");
         // Copy .wal file (from checkpoint position)
         self.copy_wal_file(handle)?;
 
+vpoint!("backup.after_wal");
         // Mark backup as completed
         {
             let mut active = self.active_backup.write().unwrap();
